@@ -275,7 +275,7 @@ fn check(c: &Case) -> Verdict {
 }
 
 /// the index *value* is a 1x1 matrix (one-element vector, one-element range, one-flag mask)
-fn one_by_one_index(ix: &Ix, _len: usize) -> bool {
+pub fn one_by_one_index(ix: &Ix, _len: usize) -> bool {
   match ix {
     Ix::Vec { vals, .. } => vals.len() == 1,
     Ix::Range { a, b, inclusive } => (if *inclusive { *b } else { *b - 1 }) == *a,
